@@ -41,10 +41,10 @@ def run(idx: Index, rep: Report, tier: str):
     rep.assume("numerical equality with <psi|H|psi>, sampling statistics and the backend-native expectation (cirq) are not decided")
     check_basis_table(idx, rep)
     check_forwarding(idx, rep, tier)
+    check_stateless_evaluation(idx, rep, tier)        # before the route table: a memo adds a predicate the table does not know (exit 2) - the memo itself is the report
     check_sibling_routes(idx, rep)
-    check_route_totality(idx, rep)
     check_parity_skeleton(idx, rep)
-    check_stateless_evaluation(idx, rep, tier)
+    check_route_totality(idx, rep)
     from ..rules.chunks import check_chunk_sum
     check_chunk_sum(rep, "K9.shot-conservation", idx.function(f"{BACKEND}::Backend._statevector_to_frequencies"), "self.n_shots")
 
